@@ -14,7 +14,7 @@ AREAS_ADD = {
 
 PROPS_ADD = {
     "C12": {
-        "seed": 12, "areas": [("cleaner", 300), ("syncloop", 60)], "thorough_mult": 8,
+        "seed": 12, "areas": [("cleaner", 300), ("syncloop", 60), ("crash", 30)], "thorough_mult": 8,
         "assumptions": [
             "a listing names each blob once (NoDup) and List(prefix) returns exactly the names starting with the prefix (simpleblob backend contract)",
             "C12_newest_protected: per instance the snapshot timestamps are distinct and names appear in timestamp order (in_order_at: an older snapshot of an instance has been tracked at least as long as a newer one); without it the statement is false (C12_out_of_order_refuted, replayed on the real cleaner)",
